@@ -450,7 +450,7 @@ def _run(ctx, rng, sess):
             seq += [(30000, 8, True), (3000, 3, True)] + [(rng.randint(1025, 2600), rng.randint(1, 8), rng.random() < 0.5) for _ in range(40)]
         for (total, keep, ch) in seq:
             files.append(("sequential:%d/keep%d" % (total, keep), gen_sequential(rng, total, keep, ch)))
-        n = 10000 if ctx.thorough else 1000
+        n = 25000 if ctx.thorough else 1000
         for i in range(n):
             ln = rng.randint(20, 120) if not ctx.thorough else rng.randint(20, 180)
             files.append(("interleaved:%d" % i, gen_interleaved(rng, ln, malformed=rng.choice([0.0, 0.15, 0.4]),
